@@ -12,13 +12,15 @@ class RunClass(stateworld.StateWorld):
 
 def gen_config(rng, tier):
     n = rng.choice([1, 2, 2, 3, 3, 3, 4, 4] + ([5] if tier == "thorough" else []))
+    if rng.random() < 0.02:
+        n = rng.choice([6, 7])      # a few runs on larger registers (word / byte boundaries, wider tableaux)
     ops = {"new": 1.0, "cnew": 1.5, "cfwd": 3.0, "cbwd": 2.0, "postselect": 2.0, "mlayer": 1.5}
     for k, w in (("rot", 1.5), ("tmap", 1.0), ("gate", 0.7), ("copy", 0.4), ("setr", 0.5),
                  ("ctake", 1.0), ("ccompile", 0.5), ("measure", 0.5), ("relayout", 0.3)):
         if rng.random() < 0.7:
             ops[k] = w * rng.choice([0.5, 1.0, 2.0])
     faults = [f for f in ("coin_force", "rejected_op") if rng.random() < 0.75]
-    return {"n": n, "steps": rng.randrange(4, 30) if tier != "thorough" else rng.randrange(4, 70), "ops": ops, "faults": faults,
+    return {"n": n, "steps": (lambda x: min(x, 14) if n >= 6 else x)(rng.randrange(4, 30) if tier != "thorough" else rng.randrange(4, 70)), "ops": ops, "faults": faults,
             "flags": ["c14"], "max_slots": rng.choice([1, 2, 3])}
 
 
